@@ -6,6 +6,7 @@ import (
 	"encoding/binary"
 	"errors"
 	"fmt"
+	"math/big"
 	"reflect"
 	"strings"
 	"testing"
@@ -350,6 +351,34 @@ func (r rapidSrc) U64() uint64 {
 	return rapid.OneOf(rapid.Uint64Range(0, 63), rapid.Uint64()).Draw(r.t, "d")
 }
 
+// tooLongPacked: a gzip_packed (bare and as the result of an rpc_result) whose compressed payload exceeds 2^24-1 bytes.
+func tooLongPacked(seed uint64) error {
+	part := func(seed uint64) []byte {
+		b := make([]byte, 6<<20)
+		x := seed | 1
+		for i := 0; i+8 <= len(b); i += 8 {
+			x ^= x << 13
+			x ^= x >> 7
+			x ^= x << 17
+			binary.LittleEndian.PutUint64(b[i:], x)
+		}
+		return b
+	}
+	inner := &objects.PQInnerData{Pq: part(seed + 1), P: part(seed + 2), Q: part(seed + 3), Nonce: &tl.Int128{Int: big.NewInt(1)}, ServerNonce: &tl.Int128{Int: big.NewInt(2)}, NewNonce: &tl.Int256{Int: big.NewInt(3)}}
+	return hx.Safely(func() error {
+		if _, err := tl.Marshal(inner); err != nil {
+			return fmt.Errorf("INFRA: the object to pack is not serialisable: %v", err)
+		}
+		for _, v := range []any{&objects.GzipPacked{Obj: inner}, &objects.RpcResult{ReqMsgID: 4, Obj: &objects.GzipPacked{Obj: inner}}} {
+			out, err := tl.Marshal(v)
+			if err == nil {
+				return fmt.Errorf("%T with more than 2^24 bytes of packed data was not refused: Marshal returned %d bytes and no error", v, len(out))
+			}
+		}
+		return nil
+	})
+}
+
 func TestC02(t *testing.T) {
 	setup(t)
 	if p := hx.ReplayPath(); p != "" {
@@ -358,6 +387,14 @@ func TestC02(t *testing.T) {
 			t.Fatal(err)
 		}
 		run.Case(true, 1)
+		if c.Def == "special:too-long-packed" {
+			run.Case(true, 2)
+			if err := tooLongPacked(run.Seed); err != nil {
+				run.Violation(c, err.Error())
+				t.Fatalf("replay fails: %v", err)
+			}
+			return
+		}
 		if err := evaluate(&c, &tlx.Replay{Draws: c.Draws}); err != nil {
 			run.Violation(c, err.Error())
 			t.Fatalf("replay fails: %v", err)
@@ -448,6 +485,19 @@ func TestC02(t *testing.T) {
 					return
 				}
 			}
+		}
+	})
+	t.Run("too-long-packed", func(t *testing.T) {
+		// gzip_packed whose compressed payload does not fit the 24-bit length: refused, not mis-encoded. The packed
+		// object is valid on its own (three incompressible 6 MiB byte fields, each below the limit).
+		if run.Shard%hx.NShards() != 1%hx.NShards() {
+			return
+		}
+		run.Case(true, evid.Hash("too-long-packed", run.Seed), "def:special:gzip", "feat:packed-data>=2^24", "direction:encode")
+		err := tooLongPacked(run.Seed)
+		if err != nil && !strings.HasPrefix(err.Error(), "INFRA:") {
+			p := run.ViolationNamed("too-long-packed", &Case{Def: "special:too-long-packed"}, err.Error())
+			t.Errorf("violation (replay %s): %v", p, err)
 		}
 	})
 	if t.Failed() {
